@@ -24,7 +24,9 @@ struct Rep {
 }
 impl Value for Rep {
     fn write(&self, writer: impl ValueWriter) {
-        writer.metric([Observation::Repeated { total: self.v * self.n as f64, occurrences: self.n }], Unit::None, [], MetricFlags::empty())
+        // (n == 0: a zero-occurrence observation with a non-zero total - it contributes nothing)
+        let total = if self.n == 0 { self.v } else { self.v * self.n as f64 };
+        writer.metric([Observation::Repeated { total, occurrences: self.n }], Unit::None, [], MetricFlags::empty())
     }
 }
 impl MetricValue for Rep {
@@ -437,12 +439,12 @@ fn run_random(rng: &mut Rng, bounds: &[u64], rep: &Report) -> bool {
         }
         6 => {
             // repeated observations with small counts (also through sort-and-merge)
-            let v: Vec<Rep> = (0..n.min(40)).map(|_| Rep { v: gen_value(rng, bounds), n: 1 + rng.below(1000) }).collect();
+            let v: Vec<Rep> = (0..n.min(40)).map(|_| Rep { v: gen_value(rng, bounds), n: if rng.below(6) == 0 { 0 } else { 1 + rng.below(1000) } }).collect();
             case(&v, true, &ctx, rep)
         }
         _ => {
             // repeated observations with large counts, exponential only
-            let v: Vec<Rep> = (0..n).map(|_| Rep { v: gen_value(rng, bounds), n: 1 + (rng.next_u64() >> (24 + rng.below(40))) }).collect();
+            let v: Vec<Rep> = (0..n).map(|_| Rep { v: gen_value(rng, bounds), n: if rng.below(8) == 0 { 0 } else { 1 + (rng.next_u64() >> (24 + rng.below(40))) } }).collect();
             case(&v, false, &ctx, rep)
         }
     };
